@@ -237,10 +237,14 @@ fn content_formats(rep: &mut Report, r: &mut Rng) {
 
 fn observe_flags(rep: &mut Report, level: u32) {
     for (flag, n) in [(ObserveOption::Register, 0u64), (ObserveOption::Deregister, 1u64)] {
-        for prev in [None, Some(ObserveOption::Register), Some(ObserveOption::Deregister)] {
+        for (pi, prev) in [None, Some(ObserveOption::Register), Some(ObserveOption::Deregister), None, Some(ObserveOption::Deregister)].into_iter().enumerate() {
             rep.eval();
             let res = guard(|| {
                 let mut q: Req = CoapRequest::new();
+                if pi >= 3 {
+                    // a FETCH request observes like a GET request does (RFC 8132)
+                    q.set_method(coap_lite::RequestType::Fetch);
+                }
                 let before = q.get_observe_flag();
                 if let Some(p) = prev {
                     q.set_observe_flag(p);
